@@ -267,6 +267,11 @@ impl TypeChecker {
                         self.error_cannot_assign_to_this_expression(p)
                     );
                 };
+                if !matches!(path_value.kind, ValueKind::Local) {
+                    return Err(
+                        self.error_cannot_assign_to_this_expression(p)
+                    );
+                }
 
                 let ty = path_value.final_type();
                 let ctx = ctx.with_type(ty);
@@ -286,6 +291,11 @@ impl TypeChecker {
                         self.error_cannot_assign_to_this_expression(&c.path)
                     );
                 };
+                if !matches!(path_value.kind, ValueKind::Local) {
+                    return Err(
+                        self.error_cannot_assign_to_this_expression(&c.path)
+                    );
+                }
 
                 let ty = path_value.final_type();
                 let ctx = ctx.with_type(ty);
